@@ -215,13 +215,20 @@ def is_iwa_name(name):
     return name.endswith(".iwa")
 
 
-def decode_objects(members):
-    """-> dict identifier -> (member name, ArchiveInfo, first message object or None, payloads)"""
+def decode_objects(members, strict=True):
+    """-> dict identifier -> (member name, ArchiveInfo, first message object or None, payloads).
+    strict=False skips members that are not decodable IWA archives (some fixtures carry such files)."""
     objs = {}
     for name, blob in members:
         if not is_iwa_name(name):
             continue
-        for ai, payloads in segments(unframe(blob)):
+        try:
+            segs = segments(unframe(blob))
+        except Exception:  # noqa: BLE001
+            if strict:
+                raise
+            continue
+        for ai, payloads in segs:
             cls = message_class(ai.message_infos[0].type) if ai.message_infos else None
             msg = cls.FromString(payloads[0]) if cls is not None else None
             if ai.identifier in objs:
@@ -238,7 +245,11 @@ def transform(members, fn):
         if not is_iwa_name(name):
             out.append((name, blob))
             continue
-        segs = segments(unframe(blob))
+        try:
+            segs = segments(unframe(blob))
+        except Exception:  # noqa: BLE001 - not a decodable archive: carried over verbatim
+            out.append((name, blob))
+            continue
         changed = False
         for seg in segs:
             ai, pls = seg
